@@ -115,8 +115,17 @@ CO_Tree::CO_Tree(Iterator i, const dimension_type n) {
     else {
       if (top_n == 1) {
         PPL_ASSERT(root.index() == unused_index);
+        try {
+          new(&(*root)) data_type(*i);
+        }
+        catch (...) {
+          // The elements built so far have their index set: destroy()
+          // releases them together with indexes[] and data[]
+          // (no destructor runs for a constructor that throws).
+          destroy();
+          throw;
+        }
         root.index() = i.index();
-        new(&(*root)) data_type(*i);
         ++i;
         --stack_first_empty;
       }
